@@ -565,6 +565,7 @@ const ORDERS: &[&str] = &[
     "small_components_at_both_ends",
     "reset_to_large_sizes",
     "absorb_after_deep_lookup",
+    "construction_ladder",
 ];
 
 /// depth/size invariant through the hook against the big model, O(n alpha)
@@ -634,15 +635,130 @@ fn big_checkpoint(dsu: &DSU, m: &BigModel, cx: &mut Cx, why: &str) -> bool {
     bad == 0
 }
 
+/// a ladder of constructions on one thread that has never built a structure before: new / reset with sizes that climb
+/// by factors between 1.05 and 2.6 from a few thousand up to about n (then fall and climb again), every fresh structure
+/// compared element by element with the all-singletons model, a few unions at both ends and in the top part, and the
+/// forest checked again. Whatever a process or thread keeps between structures (scratch buffers, tables sized by the
+/// largest structure seen so far) is exercised by the succession of sizes, not by any single one.
+fn run_ladder(n: usize, seed: u64, rep: &mut Report) {
+    std::thread::scope(|s| {
+        s.spawn(move || {
+            let replay = vec!["--mode".into(), "adversarial".into(), "--case".into(), format!("construction_ladder:{}", n)];
+            let mut cx = Cx { rep, replay, log: vec![format!("order construction_ladder n {}", n)], mode: "adversarial" };
+            cx.rep.inc("evaluations");
+            cx.rep.see_str("nontrivial", &format!("construction_ladder:{}", n));
+            let mut rng = Rng::new(mix(&[seed, n as u64, 0x1add]));
+            let r = catch(|| {
+                let mut sizes: Vec<usize> = Vec::new();
+                for _round in 0..3 {
+                    let mut sz = 3000.0 + rng.below(3000) as f64;
+                    while (sz as usize) < n.max(9000) {
+                        sizes.push(sz as usize);
+                        sz *= 1.05 + rng.below(156) as f64 / 100.0;
+                    }
+                    sizes.push(n.max(9000));
+                }
+                let mut live: Option<DSU> = None;
+                for (k, &sz) in sizes.iter().enumerate() {
+                    cx.note(format!("#{} {} elements", k, sz));
+                    cx.rep.inc("ladder_constructions");
+                    let mut dsu = match live.take() {
+                        Some(mut d) if rng.chance(1, 2) => {
+                            lib!(d.reset(sz));
+                            d
+                        }
+                        _ => lib!(DSU::new(sz)),
+                    };
+                    let mut m = BigModel::new(sz);
+                    if !big_checkpoint(&dsu, &m, &mut cx, &format!("fresh structure #{} of {} elements", k, sz)) {
+                        return;
+                    }
+                    for (u, v) in [(0usize, sz - 1), (sz - 2, sz - 1), (sz - sz / 6, sz - sz / 7), (sz / 2, sz - 3), (1, 2)] {
+                        let want = m.union(u, v);
+                        let got = lib!(dsu.un(u, v));
+                        cx.rep.inc("un_checked");
+                        if got != want {
+                            cx.violation("un_result", Json::obj().set("u", u).set("v", v).set("got", got).set("want", want).set("n", sz).set("construction", k));
+                            return;
+                        }
+                    }
+                    for v in [sz - 1, sz - sz / 6, sz - sz / 9, sz / 2, 0] {
+                        let (got, want) = (lib!(dsu.size(v)), m.cnt[m.find(v)] as usize);
+                        cx.rep.inc("size_checked");
+                        if got != want {
+                            cx.violation("size", Json::obj().set("v", v).set("got", got).set("want", want).set("n", sz).set("construction", k));
+                            return;
+                        }
+                    }
+                    if !big_checkpoint(&dsu, &m, &mut cx, &format!("structure #{} after five unions", k)) {
+                        return;
+                    }
+                    live = Some(dsu);
+                }
+            });
+            if let Err(p) = r {
+                if p.in_lib {
+                    cx.violation("panic", Json::obj().set("panic", p.msg.as_str()).set("at", format!("{}:{}", p.file, p.line)));
+                } else {
+                    cx.rep.inconclusive(format!("harness panic at {}:{}: {}", p.file, p.line, p.msg));
+                }
+            }
+        });
+    });
+}
+
 fn run_adversarial(order: &str, n: usize, seed: u64, rep: &mut Report) {
+    if order == "construction_ladder" {
+        return run_ladder(n, seed, rep);
+    }
     let replay = vec!["--mode".into(), "adversarial".into(), "--case".into(), format!("{}:{}", order, n)];
     let mut cx = Cx { rep, replay, log: vec![format!("order {} n {}", order, n)], mode: "adversarial" };
     cx.rep.inc("evaluations");
     cx.rep.see_str("nontrivial", &format!("{}:{}", order, n));
     let mut rng = Rng::new(seed);
     let r = catch(|| {
-        let mut dsu = lib!(DSU::new(n));
+        // the structure of n fresh elements is obtained by one of several routes: reset() is a constructor too, and what
+        // a structure was before must not matter
+        let route = (mix(&[seed, n as u64, common::hash_str(order)]) % 5) as usize;
+        const ROUTES: [&str; 5] = ["new(n)", "new(1), reset(n)", "new(n/2+1), reset(n/2+2), reset(n) (growing inside spare capacity)", "new(2n+3), reset(n) (shrinking)", "new(n), random unions and lookups, reset(n)"];
+        cx.note(format!("route: {}", ROUTES[route]));
+        cx.rep.see_str("construction_routes", ROUTES[route]);
+        let mut dsu = match route {
+            1 => {
+                let mut d = lib!(DSU::new(1));
+                lib!(d.reset(n));
+                d
+            }
+            2 if n >= 4 => {
+                let a = n / 2 + 1;
+                let mut d = lib!(DSU::new(a));
+                lib!(d.reset(a + 1));
+                lib!(d.reset(n));
+                d
+            }
+            3 => {
+                let mut d = lib!(DSU::new(2 * n + 3));
+                lib!(d.un(0, 2 * n + 2));
+                lib!(d.un(n - 1, n));
+                lib!(d.reset(n));
+                d
+            }
+            4 => {
+                let mut d = lib!(DSU::new(n));
+                for _ in 0..(n / 3).min(50_000) {
+                    let (u, v) = (rng.usize_below(n), rng.usize_below(n));
+                    lib!(d.un(u, v));
+                    lib!(d.par(rng.usize_below(n)));
+                }
+                lib!(d.reset(n));
+                d
+            }
+            _ => lib!(DSU::new(n)),
+        };
         let mut m = BigModel::new(n);
+        if !big_checkpoint(&dsu, &m, &mut cx, "fresh structure") {
+            return;
+        }
         let mut unions = 0usize;
         let mut next_cp = 64usize;
         let mut ok = true;
@@ -949,6 +1065,56 @@ fn run_adversarial(order: &str, n: usize, seed: u64, rep: &mut Report) {
         }
         if !big_checkpoint(&dsu, &m, &mut cx, "final (before lookups)") {
             return;
+        }
+        // size / check on the deepest elements of the forest (and a sample of the others) before any of them has been
+        // looked up: these calls see the forest exactly as the union order left it
+        {
+            let p = dsu.verif_parents();
+            let mut depth = vec![u32::MAX; n];
+            for s0 in 0..n {
+                let mut x = s0;
+                let mut path: Vec<usize> = Vec::new();
+                while depth[x] == u32::MAX && p[x] != x {
+                    path.push(x);
+                    x = p[x];
+                }
+                let mut d = if p[x] == x && depth[x] == u32::MAX { 0 } else { depth[x] };
+                depth[x] = d;
+                for &y in path.iter().rev() {
+                    d += 1;
+                    depth[y] = d;
+                }
+            }
+            let mut by_depth: Vec<usize> = (0..n).collect();
+            by_depth.sort_unstable_by_key(|&v| std::cmp::Reverse(depth[v]));
+            let mut probe: Vec<usize> = by_depth.iter().take(300).cloned().collect();
+            for _ in 0..300 {
+                probe.push(rng.usize_below(n));
+            }
+            probe.extend([0, n - 1, n / 2]);
+            for (i, &v) in probe.iter().enumerate() {
+                let root = m.find(v);
+                let want_size = m.cnt[root] as usize;
+                let w = probe[(i * 7 + 3) % probe.len()];
+                let want_same = m.find(w) == root;
+                let (got_size, got_same) = if i % 2 == 0 {
+                    let a = lib!(dsu.size(v));
+                    (a, lib!(dsu.check(v, w)))
+                } else {
+                    let b = lib!(dsu.check(v, w));
+                    (lib!(dsu.size(v)), b)
+                };
+                cx.rep.inc("size_checked");
+                cx.rep.inc("check_checked");
+                if got_size != want_size {
+                    cx.violation("size", Json::obj().set("what", "size(v) of an element that has never been looked up").set("v", v).set("depth_in_forest", depth[v]).set("got", got_size).set("want", want_size).set("n", n));
+                    return;
+                }
+                if got_same != want_same {
+                    cx.violation("check", Json::obj().set("what", "check(v, w) of elements that have never been looked up").set("v", v).set("w", w).set("depth_of_v", depth[v]).set("got", got_same).set("want", want_same).set("n", n));
+                    return;
+                }
+            }
         }
         // lookups on every element (path compression), then the invariant again; representative identical per component
         let mut rep_of = vec![usize::MAX; n];
